@@ -35,6 +35,8 @@ impl RawReader {
 
 	pub fn load_bytes(&mut self, bytes: &[u8]) {
 		self.bytes.clear();
+		// A backslash at the very end of the last key string escaped nothing: it must not reach into this one
+		self.is_escaped = false;
 		let bytes = bytes.iter();
 		self.bytes.extend(bytes);
 	}
